@@ -53,8 +53,12 @@ class Contract:
                  returns=None, raises=None, call_ghost=None, gen=None, notes="", obligations_for=None,
                  assumed=None, after_loop=None, hints=None, rt_only=None, ghost_vars=None, ghost_after=None,
                  exit_hints=None, vec_counts=None, after_assign=None, abstract_mul=False, entry_hints=None,
-                 unroll=None, fields=None, fixed=None, fragment=None, call_hints=None, focus=None, may_raise=None):
-        self.may_raise = list(may_raise or [])      # exceptions the function may raise (no condition is specified)
+                 unroll=None, fields=None, fixed=None, fragment=None, call_hints=None, focus=None, may_raise=None,
+                 needed_by=None):
+        self.may_raise = list(may_raise or [])
+        # needed_by: {requires clause name: [substrings of obligation names]} — a (typically non-linear, quantified)
+        # precondition that only the listed obligations need; the first solver attempt of every other obligation omits it
+        self.needed_by = dict(needed_by or {})      # exceptions the function may raise (no condition is specified)
         # focus: {substring of an obligation name: [spec names]} extra spec families kept by the relevance filter of
         # the first (cheap) solver attempt; purely a performance hint (all hypotheses are used on the second attempt)
         self.focus = dict(focus or {})
@@ -116,7 +120,8 @@ class Lemma:
     Once proved it is available (quantified, with the stated trigger terms) to the VCs of the listed contracts."""
 
     def __init__(self, name, params, statement, props, induction=None, base="0", requires=None, hints=None,
-                 use_lemmas=(), base_hints=None, intro=None):
+                 use_lemmas=(), base_hints=None, intro=None, prefer=None):
+        self.prefer = prefer        # "cvc5": give z3 only a short try first (a lemma known to be cvc5's)
         self.base_hints = base_hints or []
         # intro: {var: (lo, hi)}: the lemma states  forall var in [lo, hi): statement ; it is proved for an arbitrary
         # var in the range (the hints may mention var) and used as the quantified fact
